@@ -177,6 +177,10 @@ let handle line =
   | ["gemhelpers"; h] -> (match x_gem_helpers (unhex h) with
                           | Ok ((b, r), c) -> "OK " ^ hex b ^ " " ^ hex r ^ " " ^ hex c
                           | Err e -> "ERR " ^ string_of_err e)
+  | ["mavennative"; which; h] -> res_gclist (x_maven_native (which = "nuget") (unhex h))
+  | ["relations"; which; items] -> res_gclist (x_relations (which = "rpm") (List.map unhex (Stdlib.String.split_on_char ',' items)))
+  | ["nginxnative"; h] -> res_gclist (x_nginx_native (unhex h))
+  | ["opensslnative"; h] -> res_gclist (x_openssl_native (unhex h))
   | ["refcmp"; cls; a; b] -> (match x_refcmp (coq_string cls) (unhex a) (unhex b) with
                              | None -> "NOREF"
                              | Some None -> "OUTSIDE"
